@@ -7,6 +7,7 @@ from cminx.config import Settings
 STRUCT = @@STRUCT@@      # nested list: "s" = single argument (symbolic text), [..] = parenthesised group
 L = @@L@@
 NCP = @@NCP@@
+NTOK = @@NTOK@@          # number of argument tokens (single arguments and both parentheses of every group)
 hc.shim_re("real")
 hc.quiet_logging()
 
@@ -18,13 +19,37 @@ def _build(struct, pc):
     return out
 
 
-def check(cps: $$CPS$$) -> bool:
+MULTILINE = @@MULTILINE@@    # True: every argument token on a line of its own (columns arbitrary); False: all on one line (columns increasing)
+
+
+def _pos_ok(gs, cs) -> bool:
+    for i in range(NTOK):
+        if gs[i] < 0 or cs[i] < 0:
+            return False
+    return True
+
+
+def _positions(gs, cs):
+    """token positions as a lexer assigns them (strictly increasing in (line, column)), built without case distinctions"""
+    out = []
+    line, col = 4, 0
+    for i in range(NTOK):
+        if MULTILINE:
+            line = line + 1 + gs[i]
+            col = cs[i]
+        else:
+            col = col + 1 + gs[i]
+        out.append((line, col))
+    return out
+
+
+def check(cps: $$CPS$$, ls: $$PT$$, cs: $$PT$$) -> bool:
     """
-    pre: hc.cps_ok(cps, bad=hc.PLAINBAD)
+    pre: hc.cps_ok(cps, bad=hc.PLAINBAD) and _pos_ok(ls, cs)
     post: _
     """
     pc = hc.Pieces(cps)
     args = _build(STRUCT, pc)
     cmds = [prog.cmd("some_command", args, hc.canon_block("", ["d"]), "d" + chr(10))]
-    got = prog.real_page(cmds, Settings())
-    return hc.report(got == prog.spec_page(cmds), cps=cps)
+    got = prog.real_page(cmds, Settings(), argpos=hc.Positions(_positions(ls, cs)))
+    return hc.report(got == prog.spec_page(cmds), cps=cps, ls=ls, cs=cs)
